@@ -137,7 +137,7 @@ func checkC13(c *Ctx, r *Report) {
 		r.Check(ok && n > 0 && bad == 0, r4, wt, "reserve / release pairing", nil, fmt.Sprintf("%d paths", n), fmt.Sprintf("reservation pairing broken (structure ok=%v; %d of %d paths through the memory write release the reservation a wrong number of times)", ok, bad, n))
 	}
 
-	r5 := r.Rule("R5", "E-GUARD+E-PAIR", "BlobMemoryCache.Add is reached only where the reserved size equals the number of bytes stored in the entry; every delete from entries is followed by a release of the entry's size", 3)
+	r5 := r.Rule("R5", "E-GUARD+E-PAIR", "BlobMemoryCache.Add is reached only where the reserved size equals the number of bytes stored in the entry; every delete from entries is followed by a release of the entry's size", 2)
 	for _, cs := range c.CallsTo(fnMemAdd) {
 		fn := cs.Caller
 		if c.isFixture(fn) {
